@@ -269,6 +269,9 @@ func (e *ctxEval) field(sv ssa.Value, f int, stack []*ssa.Call, d int) string {
 				}
 			}
 		}
+		if st, ok := x.Type().Underlying().(*types.Struct); ok && f < st.NumFields() {
+			return "param:" + x.Name() + "." + st.Field(f).Name()
+		}
 	case *ssa.Phi:
 		var parts []string
 		for _, ed := range x.Edges {
